@@ -75,7 +75,14 @@ def gen_cases(chk):
     # F7: length classes
     for ln in (0, 1, 2, 7, 9, 12, 15, 17):
         add('length', (EXIT * 3)[:ln])
-    # F8: random programs of 1..6 slots, slots biased to supported opcodes
+    # F9: context independence -- the verdict on an instruction does not depend on what precedes it: every opcode with the register
+    # bytes on the r10 / r11 boundaries after one valid instruction of each class (store, atomic add, wide load, jump, call, swap, ...)
+    contexts = [slot(0x7b, 0x1a, -8), slot(0x72, 0x0a, -1, 5), slot(0xdb, 0x1a, -8, 0), slot(0x18, 0x01, 0, 5) + slot(0), slot(0x05),
+                slot(0x15, 0x01, 0, 0), slot(0x85, 0, 0, 1), slot(0xdc, 0x01, 0, 16), MOV, slot(0x61, 0xa0, -4)]
+    for o in range(256):
+        for rb in (0x0a, 0xa0, 0x0b, 0x19):
+            for cx in (contexts if thorough else contexts[(o + rb) % 2::2]):
+                add('context', cx + slot(o, rb, 0, 0 if o not in (0xd4, 0xdc) else 16) + EXIT)
     valid_ops = [o for o in range(256)]
     for _ in range(40000 if thorough else 5000):
         n = 1 + rng.below(6)
@@ -124,7 +131,7 @@ def run(chk):
         chk.cov['distinct_nontrivial'] = len(distinct)
         chk.cov['rule'] = ('byte strings from directed families (every opcode byte as single / before exit / as last slot, register bytes, '
                            'offsets and immediates around the bounds, wide loads, every jump opcode x displacement around program bounds and '
-                           'wide loads, calls, length classes) + seeded random programs of 1..6 slots; distinct = distinct byte string, '
+                           'wide loads, calls, length classes, every opcode after one valid instruction of each class) + seeded random programs of 1..6 slots; distinct = distinct byte string, '
                            'non-trivial = at least one whole slot')
         chk.cov['input_distribution'] = {'families': fams, 'implementation_outcomes': outs}
         chk.cov['samples'] = [{'program': progs[i][1].hex(), 'family': progs[i][0], 'implementation': answers[i]}
